@@ -248,6 +248,11 @@ def gen_cases(tier, seed):
         allk = [_with_sense(spec, [1, None, 0][i % 3], None) for i, (name, spec) in enumerate(kinds)]
         cases.append(dict(kind='trim', items=[dict(shape=host, delta=DELTAS[2][0], trims=allk)], container=False,
                           fmts=[['json'], ['dict']], trim_kind='all'))
+        # the trims come back in the order they were given: containers first, and containers between single curves
+        cases.append(dict(kind='trim', items=[dict(shape=host, delta=DELTAS[2][0], trims=allk[::-1])], container=False,
+                          fmts=[['json'], ['dict']], trim_kind='all_reversed'))
+        cases.append(dict(kind='trim', items=[dict(shape=host, delta=DELTAS[2][0], trims=[allk[3], allk[0], allk[4], allk[2]])],
+                          container=False, fmts=[['json'], ['dict']], trim_kind='all_interleaved'))
         cases.append(dict(kind='trim', items=[dict(shape=host, delta=DELTAS[2][1], trims=allk[:2], sense=1),
                                               dict(shape=hosts[0], delta=DELTAS[2][0]),
                                               dict(shape=host, delta=DELTAS[2][0], trims=allk[2:])], container=True,
